@@ -173,3 +173,14 @@ contract('parso.python.diff._ends_with_newline', params={'leaf': 'ref:Leaf', 'su
          requires=['leaf is not None', 'is_leaf(leaf)', exists_nd('leaf')],
          ensures=['result == (%s or suffix.endswith("\\n") or suffix.endswith("\\r"))' % NEAREST_NL],
          **NAVL)
+
+
+# ---- _get_last_line: the last line a copied node occupies.  Preconditions (assumed of the diff parser's callers): the
+# node is followed by another leaf (the endmarker at least), EXISTS_ND for its last leaf.
+LL = 'leaf_at(root(node_or_leaf), hi(node_or_leaf))'
+contract('parso.python.diff._get_last_line', params={'node_or_leaf': 'ref:NodeOrLeaf'}, returns='int',
+         requires=['node_or_leaf is not None', 'hi(node_or_leaf) < hi(root(node_or_leaf))',
+                   'forall(lambda l: implies(l is not None and is_leaf(l) and root(l) is root(node_or_leaf) and lo(l) == hi(node_or_leaf), %s), '
+                   'kinds=dict(l="ref:Leaf"))' % exists_nd('l')],
+         ensures=['result == spos(%s)[0] or result == epos(%s)[0] or result == epos(%s)[0] + 1' % (LL, LL, LL)],
+         theories=['tree', 'treepos', 'leafnum'], props=['C04'])
